@@ -1,4 +1,13 @@
 // C02 — control planners' solutions replay through the propagator to the goal.
+// Compiled a second time with -DVF_C03C as a companion of C03 (interrupt / resume / clear for the control planners): the first solve is
+// cut at a generated evaluation index, then the history continues (solve again / clear + solve), every reported solution goes through
+// the same replay oracle, and LeakSanitizer runs at the end of the case.
+#ifdef VF_C03C
+#define VF_DETECT_LEAKS 1
+#define VF_KP "C03/control"
+#else
+#define VF_KP "C02"
+#endif
 #include "../gen/planning.h"
 #include "ompl/control/PathControl.h"
 #include "ompl/control/SimpleSetup.h"
@@ -27,7 +36,12 @@ void vf::process_init()
 vf::Config vf::config()
 {
     Config c;
+#ifdef VF_C03C
+    c.property = "C03";
+    c.leaks = true;
+#else
     c.property = "C02";
+#endif
     c.maxLen = 400;
     c.batch = 1;
     c.caseTimeout = 30;
@@ -324,102 +338,160 @@ void vf::run_case(Src &s, Ctx &c)
            cp.name, seed, sysName[sy.kind], sy.step, sy.minD, sy.maxD, sy.clo[0], sy.chi[0], sy.clo[1], sy.chi[1], budget, P->threshold, kc, sx, sy0, gx, gy, P->env.str().c_str());
     c.count(std::string("planner:") + cp.name);
     c.count(std::string("system:") + sysName[sy.kind]);
-    CountPTC ptc(&c);
-    ptc.limit = budget;
-    ob::PlannerStatus st;
     try
     {
         pl->setProblemDefinition(P->pdef);
         pl->setup();
-        st = pl->solve(ptc.make());
     }
     catch (const ompl::Exception &e)
     {
-        c.note("exception: %s\n", e.what());
-        VCHECK(c, P->pdef->getSolutionCount() == 0, std::string("C02/exception-after-solution/") + cp.name, "%s threw after reporting a solution: %s", cp.name, e.what());
+        c.note("exception in setup: %s\n", e.what());
         c.count("outcome:clean-rejection-by-exception");
         return;
     }
-    const std::string pkey = std::string("/") + cp.name;
-    c.count(std::string("outcome:") + statusName(st));
-    bool solved = st == ob::PlannerStatus::EXACT_SOLUTION || st == ob::PlannerStatus::APPROXIMATE_SOLUTION;
-    size_t nsol = P->pdef->getSolutionCount();
-    c.note("status=%s solutions=%zu\n", statusName(st), nsol);
-    VCHECK(c, solved == (nsol > 0), "C02/status-pdef-mismatch" + pkey, "%s returned %s with %zu solution path(s)", cp.name, statusName(st), nsol);
-    if (!solved)
-        return;
-    auto *pc = dynamic_cast<oc::PathControl *>(P->pdef->getSolutionPath().get());
-    VCHECK(c, pc != nullptr, "C02/not-a-control-path" + pkey, "solution is not a PathControl");
-    const size_t nc = pc->getControlCount(), ns = pc->getStateCount();
-    VCHECK(c, ns == nc + 1 && ns >= 1, "C02/path-shape" + pkey, "%zu states for %zu controls", ns, nc);
-    VCHECK(c, ps.space->equalStates(pc->getState(0), start) && P->startOk[0], "C02/start" + pkey, "control path does not start at the (valid) start state");
-    ob::State *cur = csi->allocState(), *nxt = csi->allocState();
-    struct G
+    bool anyInteresting = false;
+    // the oracle for whatever the problem definition holds after one solve() call
+    bool resumedSolve = false;  // C03 companion: a solve() that continues the preserved search (earlier solutions stay in the problem definition)
+    auto judge = [&](ob::PlannerStatus st)
     {
-        ob::SpaceInformationPtr si;
-        ob::State *a, *b;
-        ~G()
+        const std::string pkey = std::string("/") + cp.name;
+        c.count(std::string("outcome:") + statusName(st));
+        bool solved = st == ob::PlannerStatus::EXACT_SOLUTION || st == ob::PlannerStatus::APPROXIMATE_SOLUTION;
+        size_t nsol = P->pdef->getSolutionCount();
+        c.note("status=%s solutions=%zu\n", statusName(st), nsol);
+        VCHECK(c, resumedSolve ? (!solved || nsol > 0) : solved == (nsol > 0), VF_KP "/status-pdef-mismatch" + pkey, "%s returned %s with %zu solution path(s)", cp.name, statusName(st), nsol);
+        if (!solved)
+            return;
+        // after a continued solve the problem definition also holds what earlier calls reported, best first: the path is judged as what
+        // the problem definition says it is, not by the status of this one call
+        if (resumedSolve)
+            st = P->pdef->hasApproximateSolution() ? ob::PlannerStatus::APPROXIMATE_SOLUTION : ob::PlannerStatus::EXACT_SOLUTION;
+        auto *pc = dynamic_cast<oc::PathControl *>(P->pdef->getSolutionPath().get());
+        VCHECK(c, pc != nullptr, VF_KP "/not-a-control-path" + pkey, "solution is not a PathControl");
+        const size_t nc = pc->getControlCount(), ns = pc->getStateCount();
+        VCHECK(c, ns == nc + 1 && ns >= 1, VF_KP "/path-shape" + pkey, "%zu states for %zu controls", ns, nc);
+        VCHECK(c, ps.space->equalStates(pc->getState(0), start) && P->startOk[0], VF_KP "/start" + pkey, "control path does not start at the (valid) start state");
+        ob::State *cur = csi->allocState(), *nxt = csi->allocState();
+        struct G
         {
-            si->freeState(a);
-            si->freeState(b);
-        }
-    } guard{csi, cur, nxt};
-    double worstDev = 0;
-    unsigned longest = 0;
-    for (size_t i = 0; i < nc; ++i)
-    {
-        const double *u = pc->getControl(i)->as<oc::RealVectorControlSpace::ControlType>()->values;
-        for (unsigned k = 0; k < sy.cdim; ++k)
-            VCHECK(c, u[k] >= sy.clo[k] && u[k] <= sy.chi[k], "C02/control-out-of-bounds" + pkey, "control %zu component %u = %.9g outside [%.9g, %.9g]", i, k, u[k], sy.clo[k],
-                   sy.chi[k]);
-        double dur = pc->getControlDuration(i);
-        double q = dur / sy.step;
-        long n = std::lround(q);
-        VCHECK(c, std::fabs(q - (double)n) <= 1e-9 * std::max(1.0, q) && n >= 1, "C02/duration-not-whole-steps" + pkey, "control %zu has duration %.12g = %.12g steps of %.6g", i,
-               dur, q, sy.step);
-        VCHECK(c, (unsigned long)n <= sy.maxD, "C02/duration-too-long" + pkey, "control %zu lasts %ld steps, maximum is %u", i, n, sy.maxD);
-        longest = std::max(longest, (unsigned)n);
-        // replay from the *recorded* state with the harness's own dynamics
-        VCHECK(c, oracleOk(pc->getState(i)), "C02/invalid-path-state" + pkey, "path state %zu is invalid", i);
-        csi->copyState(cur, pc->getState(i));
-        for (long k = 0; k < n; ++k)
-        {
-            dynamics(sy, ps.space, cur, u, sy.step, nxt);
-            if (!oracleOk(nxt))
+            ob::SpaceInformationPtr si;
+            ob::State *a, *b;
+            ~G()
             {
-                double x, y;
-                ps.xy(nxt, x, y);
-                c.fail("C02/replay-hits-invalid-state" + pkey, vf::fmt("%s: replaying control %zu of %zu, propagation step %ld of %ld lands on an invalid state (%.6g,%.6g)", cp.name,
-                                                                     i, nc, k + 1, n, x, y));
+                si->freeState(a);
+                si->freeState(b);
             }
-            std::swap(cur, nxt);
+        } guard{csi, cur, nxt};
+        double worstDev = 0;
+        unsigned longest = 0;
+        for (size_t i = 0; i < nc; ++i)
+        {
+            const double *u = pc->getControl(i)->as<oc::RealVectorControlSpace::ControlType>()->values;
+            for (unsigned k = 0; k < sy.cdim; ++k)
+                VCHECK(c, u[k] >= sy.clo[k] && u[k] <= sy.chi[k], VF_KP "/control-out-of-bounds" + pkey, "control %zu component %u = %.9g outside [%.9g, %.9g]", i, k, u[k], sy.clo[k],
+                       sy.chi[k]);
+            double dur = pc->getControlDuration(i);
+            double q = dur / sy.step;
+            long n = std::lround(q);
+            VCHECK(c, std::fabs(q - (double)n) <= 1e-9 * std::max(1.0, q) && n >= 1, VF_KP "/duration-not-whole-steps" + pkey, "control %zu has duration %.12g = %.12g steps of %.6g", i,
+                   dur, q, sy.step);
+            VCHECK(c, (unsigned long)n <= sy.maxD, VF_KP "/duration-too-long" + pkey, "control %zu lasts %ld steps, maximum is %u", i, n, sy.maxD);
+            longest = std::max(longest, (unsigned)n);
+            // replay from the *recorded* state with the harness's own dynamics
+            VCHECK(c, oracleOk(pc->getState(i)), VF_KP "/invalid-path-state" + pkey, "path state %zu is invalid", i);
+            csi->copyState(cur, pc->getState(i));
+            for (long k = 0; k < n; ++k)
+            {
+                dynamics(sy, ps.space, cur, u, sy.step, nxt);
+                if (!oracleOk(nxt))
+                {
+                    double x, y;
+                    ps.xy(nxt, x, y);
+                    c.fail(VF_KP "/replay-hits-invalid-state" + pkey, vf::fmt("%s: replaying control %zu of %zu, propagation step %ld of %ld lands on an invalid state (%.6g,%.6g)", cp.name,
+                                                                         i, nc, k + 1, n, x, y));
+                }
+                std::swap(cur, nxt);
+            }
+            guard.a = cur;
+            guard.b = nxt;
+            double dev = csi->distance(cur, pc->getState(i + 1));
+            worstDev = std::max(worstDev, dev);
+            VCHECK(c, dev <= std::numeric_limits<float>::epsilon(), VF_KP "/replay-deviates" + pkey, "%s: replaying control %zu (%ld steps) ends %.6g away from recorded state %zu", cp.name, i, n,
+                   dev, i + 1);
         }
-        guard.a = cur;
-        guard.b = nxt;
-        double dev = csi->distance(cur, pc->getState(i + 1));
-        worstDev = std::max(worstDev, dev);
-        VCHECK(c, dev <= std::numeric_limits<float>::epsilon(), "C02/replay-deviates" + pkey, "%s: replaying control %zu (%ld steps) ends %.6g away from recorded state %zu", cp.name, i, n,
-               dev, i + 1);
-    }
-    c.stat("replay-deviation", worstDev);
-    const ob::State *last = pc->getState(ns - 1);
-    bool approx = P->pdef->hasApproximateSolution();
-    double dg = csi->distance(last, goal);
-    if (st == ob::PlannerStatus::EXACT_SOLUTION)
+        c.stat("replay-deviation", worstDev);
+        const ob::State *last = pc->getState(ns - 1);
+        bool approx = P->pdef->hasApproximateSolution();
+        double dg = csi->distance(last, goal);
+        if (st == ob::PlannerStatus::EXACT_SOLUTION)
+        {
+            VCHECK(c, !approx, VF_KP "/exact-status-approximate-flag" + pkey, "EXACT_SOLUTION but flagged approximate");
+            VCHECK(c, P->pdef->getGoal()->isSatisfied(last), VF_KP "/goal-not-reached" + pkey, "%s: exact solution ends %.6g from the goal (threshold %.6g)", cp.name, dg, P->threshold);
+        }
+        else
+        {
+            VCHECK(c, approx, VF_KP "/approximate-status-exact-flag" + pkey, "APPROXIMATE_SOLUTION but not flagged approximate");
+            double diff = P->pdef->getSolutionDifference();
+            if (!(std::fabs(diff - dg) <= 1e-9 * (1 + dg)))
+                c.failOrKnown(VF_KP "/approximate-difference-mismatch" + pkey, vf::fmt("%s: reported difference %.9g, last state is %.9g from the goal", cp.name, diff, dg));
+        }
+        VCHECK(c, pc->check(), VF_KP "/library-check-disagrees" + pkey, "the harness replay accepts the path but PathControl::check() rejects it");
+        c.count(nc >= 2 ? "solution:>=2controls" : "solution:short");
+        anyInteresting = anyInteresting || (nc >= 2 && (longest > 1 || !P->env.obs.empty()));
+    };
+    // one solve() whose termination condition first fires at evaluation `limit`; false = the case ends here (clean rejection)
+    auto solveOnce = [&](long limit) -> bool
     {
-        VCHECK(c, !approx, "C02/exact-status-approximate-flag" + pkey, "EXACT_SOLUTION but flagged approximate");
-        VCHECK(c, P->pdef->getGoal()->isSatisfied(last), "C02/goal-not-reached" + pkey, "%s: exact solution ends %.6g from the goal (threshold %.6g)", cp.name, dg, P->threshold);
-    }
-    else
+        CountPTC ptc(&c);
+        ptc.limit = limit;
+        ob::PlannerStatus st;
+        try
+        {
+            st = pl->solve(ptc.make());
+        }
+        catch (const ompl::Exception &e)
+        {
+            c.note("exception: %s\n", e.what());
+            VCHECK(c, P->pdef->getSolutionCount() == 0, std::string(VF_KP "/exception-after-solution/") + cp.name, "%s threw after reporting a solution: %s", cp.name, e.what());
+            c.count("outcome:clean-rejection-by-exception");
+            return false;
+        }
+        judge(st);
+        return true;
+    };
+#ifndef VF_C03C
+    solveOnce(budget);
+    c.nontrivial = anyInteresting;
+#else
+    // history: solve(k1) [-> {solve again | clear + drop the reported solutions, solve}(k)]*
+    auto genK = [&]() -> long
     {
-        VCHECK(c, approx, "C02/approximate-status-exact-flag" + pkey, "APPROXIMATE_SOLUTION but not flagged approximate");
-        double diff = P->pdef->getSolutionDifference();
-        if (!(std::fabs(diff - dg) <= 1e-9 * (1 + dg)))
-            c.failOrKnown("C02/approximate-difference-mismatch" + pkey, vf::fmt("%s: reported difference %.9g, last state is %.9g from the goal", cp.name, diff, dg));
+        size_t kk = s.weighted({1, 3, 3});
+        return kk == 0 ? 0 : kk == 1 ? (long)s.in(1, 40) : (long)std::exp(s.real(0, std::log((double)budget)));
+    };
+    long k1 = genK();
+    c.note("history: solve(k=%ld)", k1);
+    if (!solveOnce(k1))
+        return;
+    int steps = s.in(0, 2);
+    for (int i = 0; i < steps; ++i)
+    {
+        bool clearFirst = s.flag();
+        long k = genK();
+        c.note(" -> %ssolve(k=%ld)", clearFirst ? "clear, " : "", k);
+        c.count(clearFirst ? "history:clear+solve" : "history:solve-again");
+        if (clearFirst)
+        {
+            P->pdef->clearSolutionPaths();
+            pl->clear();
+        }
+        resumedSolve = !clearFirst;
+        if (!solveOnce(k))
+            return;
     }
-    VCHECK(c, pc->check(), "C02/library-check-disagrees" + pkey, "the harness replay accepts the path but PathControl::check() rejects it");
-    c.count(nc >= 2 ? "solution:>=2controls" : "solution:short");
-    c.nontrivial = nc >= 2 && (longest > 1 || !P->env.obs.empty());
+    c.note("\n");
+    c.nontrivial = steps > 0 || anyInteresting;
+#endif
 }
 
 #include "../core/runner.h"
